@@ -2133,3 +2133,40 @@ func (w *World) withinBody(fn, target *ssa.Function) bool {
 	}
 	return false
 }
+
+// eachInstrThrough visits the instructions of fn and, through static calls of unexported
+// module functions (any number of call sites, depth-limited), the instructions of those
+// helpers; resolve expresses a helper-side value in fn's terms (parameters become the
+// arguments of the calls on the way).
+func (w *World) eachInstrThrough(fn *ssa.Function, depth int, cb func(in ssa.Instruction, resolve func(ssa.Value) ssa.Value)) {
+	var visit func(f *ssa.Function, xl func(ssa.Value) ssa.Value, d int, stack []*ssa.Function)
+	visit = func(f *ssa.Function, xl func(ssa.Value) ssa.Value, d int, stack []*ssa.Function) {
+		for _, s := range stack {
+			if s == f {
+				return
+			}
+		}
+		stack = append(stack, f)
+		w.eachInstr(f, func(in ssa.Instruction) {
+			cb(in, xl)
+			call, ok := in.(*ssa.Call)
+			if !ok {
+				return
+			}
+			h := call.Call.StaticCallee()
+			if h == nil || !w.IsMod[h] || len(h.Blocks) == 0 || d <= 0 {
+				return
+			}
+			if obj := h.Object(); obj == nil || (obj.Exported() && h.Signature.Recv() == nil) {
+				return
+			}
+			// exported methods of unexported use are entered too when they are small helpers of
+			// the same package (refresh/start of an element type)
+			if fnPkgPath(h) != fnPkgPath(fn) {
+				return
+			}
+			visit(h, func(v ssa.Value) ssa.Value { return xl(w.translate(v, h, call)) }, d-1, stack)
+		})
+	}
+	visit(fn, func(v ssa.Value) ssa.Value { return v }, depth, nil)
+}
